@@ -745,6 +745,38 @@ impl<'a> Sem<'a> {
                 }
                 self.span("bits-range-slice", st);
             }
+            Ty::Bits(n) if *n >= 2 && self.rng.chance(1, 4) && self.on("bits-of-mixed-widths") => {
+                // `{a, 0b10, 1}`: elements of several widths - a name of type bits<k>, a binary literal
+                // (one bit per digit), single bits - that add up to n
+                let st = self.here();
+                let mut left = *n;
+                self.w("{");
+                let mut first = true;
+                while left > 0 {
+                    if !first {
+                        self.w(", ");
+                    }
+                    first = false;
+                    let k = 1 + self.rng.below(left);
+                    let named = self.visible_of_type(&Ty::Bits(k));
+                    if k >= 2 && !named.is_empty() && self.rng.chance(1, 2) {
+                        let (nm, d) = named[self.rng.below(named.len())].clone();
+                        self.ident(&nm, Role::Use(d));
+                    } else if k >= 2 {
+                        let mut lit = String::from("0b");
+                        for _ in 0..k {
+                            lit.push(if self.rng.chance(1, 2) { '1' } else { '0' });
+                        }
+                        self.w(&lit);
+                    } else {
+                        let b = if self.rng.chance(1, 2) { "1" } else { "0" };
+                        self.w(b);
+                    }
+                    left -= k;
+                }
+                self.w("}");
+                self.span("bits-of-mixed-widths", st);
+            }
             Ty::Bits(n) => match self.rng.below(3) {
                 0 => {
                     self.w("{");
